@@ -81,16 +81,16 @@ func Verify(stump Stump, delHashes []Hash, proof Proof) ([]int, error) {
 	if err := checkNoEmptyHashes(delHashes, proof); err != nil {
 		return nil, err
 	}
-	_, rootCandidates, err := calculateHashes(stump.NumLeaves, delHashes, proof)
+	_, rootCandidates, rootRows, err := calculateHashesRows(stump.NumLeaves, delHashes, proof)
 	if err != nil {
 		return nil, err
 	}
+	// Each candidate must match the root of the tree it was calculated in.
 	rootIndexes := make([]int, 0, len(rootCandidates))
-	for i := range stump.Roots {
-		if len(rootCandidates) > len(rootIndexes) &&
-			stump.Roots[len(stump.Roots)-(i+1)] == rootCandidates[len(rootIndexes)] {
-
-			rootIndexes = append(rootIndexes, len(stump.Roots)-(i+1))
+	for i := range rootCandidates {
+		idx := rootIndexForRow(stump.NumLeaves, rootRows[i])
+		if idx < len(stump.Roots) && stump.Roots[idx] == rootCandidates[i] {
+			rootIndexes = append(rootIndexes, idx)
 		}
 	}
 
